@@ -1189,3 +1189,65 @@ class EnzymaticCleave(Contract):
         x, y = z3.Ints('px py')
         I.e.prove('C10/O4/every-pair-of-cut-points-within-the-miscleavage-limit-is-digested-exactly-those',
                   z3.ForAll([x, y], st.vis(x, y) == self.target(x, y)))
+
+
+# ----------------------------------------------------------------------------
+# the list-returning site helpers (used by the peptide graph and by decoyFasta): the sites are asked for with the arguments given
+# ----------------------------------------------------------------------------
+class _FindAllForward(Contract):
+    """the list-returning site helpers ask the site iterator exactly once, for the SAME rule, exception (and exception sites) that were given - with
+    another exception than the one asked for the sites would differ from those of the ExPASy rule under the chosen exception. (What is done with the
+    sites - union with the stop boundaries, ordering - is covered by the bounded digest oracle, not by this contract.)"""
+    props = ('C10',)
+    path = AAR
+    fn = 'find_all_enzymatic_cleave_sites'
+    with_range = False
+    has_sites_arg = False
+
+    @property
+    def qualname(self):
+        return 'AminoAcidSeqRecord.' + self.fn
+
+    def setup(self, I):
+        st = types.SimpleNamespace(calls=[])
+        st.rule, st.exc, st.esites = SymObj('Rule10g'), SymObj('Exception10g'), SymObj('ExceptionSites10g')
+        st.rec = SymObj('AminoAcidSeqRecord', seq=SymObj('Seq10g'))
+        st.args = [st.rec]
+        st.kwargs = dict(rule=st.rule, exception=st.exc)
+        if self.has_sites_arg:
+            st.kwargs['exception_sites'] = st.esites
+        self._cur = st
+        return st
+
+    @property
+    def models(self):
+        c = self
+
+        def inst(reg):
+            reg.protocol_('Seq10g', '__len__', lambda I, o: I.e.int('seq_len'))
+
+            def sites(which):
+                def f(I, o, a, k):
+                    c._cur.calls.append((which, list(a), dict(k)))
+                    return []
+                return f
+            reg.method_('AminoAcidSeqRecord', 'iter_enzymatic_cleave_sites_with_range', sites('range'))
+            reg.method_('AminoAcidSeqRecord', 'iter_enzymatic_cleave_sites', sites('plain'))
+            reg.method_('AminoAcidSeqRecord', 'iter_stop_sites', lambda I, o, a, k: [])
+        return (inst,)
+
+    def post_return(self, I, st, ret):
+        ok = len(st.calls) == 1 and st.calls[0][0] == ('range' if self.with_range else 'plain')
+        if ok:
+            _, a, k = st.calls[0]
+            names = ['rule', 'exception', 'exception_sites']
+            got = dict(zip(names, a))
+            got.update(k)
+            ok = got.get('rule') is st.rule and got.get('exception') is st.exc and (got.get('exception_sites') is st.esites if self.has_sites_arg else got.get('exception_sites') is None)
+        I.e.prove('C10/all-sites/sites-asked-for-once-with-the-given-rule-exception-and-exception-sites', z3.BoolVal(bool(ok)))
+
+
+for _fn, _wr, _hs in (('find_all_enzymatic_cleave_sites', False, False), ('find_all_enzymatic_cleave_sites_with_ranges', True, False),
+                      ('find_all_cleave_and_stop_sites', False, True), ('find_all_cleave_and_stop_sites_with_range', True, True)):
+    register(type(f'FindAllForward_{_fn}', (_FindAllForward,), dict(fn=_fn, with_range=_wr, has_sites_arg=_hs, __doc__=_FindAllForward.__doc__,
+                  props=('C10', 'C20') if _fn == 'find_all_enzymatic_cleave_sites' else ('C10',))))      # C20: decoyFasta keeps these positions
